@@ -56,6 +56,7 @@ type Op struct {
 	Ref   int    `json:"ref"`
 	Rule  int    `json:"rule"`            // interpretation of N (per kind)
 	N     uint64 `json:"n"`               // height / slots / flow rate / submit time / literal
+	Lit   uint64 `json:"lit,omitempty"`   // literal order identifier (enterprise decision, Rule 3)
 	M     uint64 `json:"m,omitempty"`     // stream: duration seconds
 	Amt   string `json:"amt,omitempty"`   // literal amount (decimal) when set
 	Denom int    `json:"denom,omitempty"` // denomination selector
